@@ -447,9 +447,25 @@ func oracle(e *env) string {
 	sort.SliceStable(all, func(i, j int) bool { return all[i].at.Cmp(all[j].at) < 0 })
 	horizonBefore := map[[2]int]*big.Int{}
 	var horizon *big.Int
+	// asked[i]: the instant up to which the server, in an answer to ANY submission of this client,
+	// asked the client to stay away (the back-off state is one per client: jsonclient/backoff.go)
+	type asked struct {
+		at, until *big.Int
+		ev        *evSpec
+	}
+	var askedAll []asked
 	for _, a := range all {
 		if horizon != nil {
 			horizonBefore[[2]int{a.k, a.pos}] = horizon
+		}
+		if ev := &s.Callers[a.k].Evs[e.obs[a.k].delivered[a.pos].idx]; evClass(ev) == "retryRA" {
+			switch form, n, d := raForm(ev.RA); form {
+			case "seconds":
+				req := new(big.Int).Mul(big.NewInt(n), big.NewInt(1e9))
+				askedAll = append(askedAll, asked{a.at, new(big.Int).Add(a.at, bmin(req, bigMaxDur)), ev})
+			case "date":
+				askedAll = append(askedAll, asked{a.at, bmin(ns(d), new(big.Int).Add(a.at, bigMaxDur)), ev})
+			}
 		}
 		ev := &s.Callers[a.k].Evs[e.obs[a.k].delivered[a.pos].idx]
 		cl := evClass(ev)
@@ -571,6 +587,12 @@ func oracle(e *env) string {
 					}
 					if lower != nil && nx.Cmp(lower) < 0 {
 						return key(fmt.Sprintf("retried after %v, less than the server's Retry-After", waited), ev)
+					}
+					// answers to other submissions of the same client strictly earlier than this one
+					for _, q := range askedAll {
+						if q.at.Cmp(resp) < 0 && nx.Cmp(bmin(q.until, new(big.Int).Add(resp, bigMaxDur))) < 0 {
+							return key(fmt.Sprintf("retried after %v, before the instant an earlier answer to this client (Retry-After %q) asked it to stay away until", waited, *q.ev.RA), ev)
+						}
 					}
 					if nx.Cmp(upper) > 0 {
 						return key(fmt.Sprintf("retried after %v, longer than the cap plus jitter", waited), ev)
